@@ -480,13 +480,13 @@ class Oracles:
             self.prelude += "".join("Definition %s%d := %s.\n" % (k, ip, qlit(pb[k])) for k in ("E", "nu", "Ri", "Re", "Pi", "Pe"))
             geo = "Ri%d Re%d Pi%d Pe%d" % (ip, ip, ip, ip)
             # szz_end_cap = lameA / szz_no_axial_force = 0 (C53SpecFE.v)
-            self.prelude += "Definition s%d := %s.\n" % (ip, ("lameA_G QNum " + geo) if pb["axial"] == 1 else "(0 # 1)")
+            self.prelude += "Definition sz%d := %s.\n" % (ip, ("lameA_G QNum " + geo) if pb["axial"] == 1 else "(0 # 1)")
             # lame_fields_AB ... (lameA_G ..) (lameB_G ..) r = [lame_u_G ..; lame_srr_G ..; lame_stt_G ..] by definition (C53Num.v lame_fields_AB_def);
             # A and B are computed once per problem (Definition + vm_compute of the body at each use would recompute them: they are let-bound
             # outside the map in `prefetch`)
-            self.prelude += "Definition f%d (A B r : Q) := lame_fields_AB QNum E%d nu%d s%d A B r.\n" % (ip, ip, ip, ip)
+            self.prelude += "Definition f%d (A B r : Q) := lame_fields_AB QNum E%d nu%d sz%d A B r.\n" % (ip, ip, ip, ip)
             self.prelude += "Definition A%d := lameA_G QNum %s.\nDefinition B%d := lameB_G QNum %s.\n" % (ip, geo, ip, geo)
-            ev.append("[s%d; lame_ezz_G QNum E%d nu%d %s s%d]" % (ip, ip, ip, geo, ip))
+            ev.append("[sz%d; lame_ezz_G QNum E%d nu%d %s sz%d]" % (ip, ip, ip, geo, ip))
         self.head, self.s, self.ezz = ev, None, None
 
     def prefetch(self, pts):
